@@ -32,5 +32,15 @@ VERIF_OUT="$out" VERIF_REPO="$wt" /verif/run.sh "$pid" "$tier" >"$sd/ourcheck.lo
 viol="$(grep -c '^VIOLATION' "$sd/ourcheck.log")"
 sig="$(grep -m1 '^violating cases' "$sd/ourcheck.log" | cut -c1-300)"
 rm -f "$sd/suite.log.ok"; [ $suite -eq 0 ] && rm -f "$sd/suite.log"
+python3 - "$sd" "$pid" "$tier" "$suite" "$demo_mut" "$demo_clean" "$ours" "$viol" "$sig" "$(git -C /repo rev-parse --short HEAD)" "$(git -C /verif rev-parse --short HEAD)" <<'P'
+import json,sys,os
+sd,pid,tier,suite,dm,dc,ours,viol,sig,rh,vh=sys.argv[1:12]
+mp=os.path.join(sd,'meta.json')
+m=json.load(open(mp)) if os.path.exists(mp) else {}
+m.setdefault('our_checks',{})[f'{pid} {tier}']={'exit':int(ours),'violation_lines':int(viol),'signatures':sig,'repo_head':rh,'verif_head':vh}
+m['ran']={'suite_with_change':'pass' if suite=='0' else 'FAIL','demo_with_change':'fails' if dm!='0' else 'PASSES','demo_without_change':'pass' if dc=='0' else 'FAILS',
+ 'commands':['git -C <scratch worktree of /repo HEAD> apply patch.diff','go test -vet=off -count=1 ./... (unedited suite)','cd demo && go test -count=1 ./...  (with and without the change)',f'VERIF_REPO=<scratch> /verif/run.sh {pid} {tier}']}
+json.dump(m,open(mp,'w'),indent=1)
+P
 echo "$name: prop=$pid suite_with_change=$([ $suite -eq 0 ] && echo pass || echo FAIL) demo_with_change=$([ $demo_mut -ne 0 ] && echo fails-as-expected || echo PASSES) demo_without=$([ $demo_clean -eq 0 ] && echo pass || echo FAILS) our_check_$tier=exit$ours violations=$viol $sig"
 [ $suite -eq 0 ] && [ $demo_mut -ne 0 ] && [ $demo_clean -eq 0 ]
